@@ -199,13 +199,13 @@ func (sr *subRep) replace(seq slip.List) slip.Object {
 		sr.count = len(seq)
 	}
 	if sr.rev {
-		for i := sr.end - 1; sr.start <= i; i-- {
+		for i := sr.end - 1; sr.start <= i && 0 < sr.count; i-- {
 			if sr.maybe(seq, i) {
 				break
 			}
 		}
 	} else {
-		for i := sr.start; i < sr.end; i++ {
+		for i := sr.start; i < sr.end && 0 < sr.count; i++ {
 			if sr.maybe(seq, i) {
 				break
 			}
@@ -219,14 +219,16 @@ func (sr *subRep) maybe(seq slip.List, i int) bool {
 	if sr.kc != nil {
 		v = sr.kc.Call(sr.s, slip.List{v}, sr.depth)
 	}
+	// The count limits the elements replaced, not the elements looked at.
 	if sr.tc != nil {
 		if sr.tc.Call(sr.s, slip.List{sr.old, v}, sr.depth) != nil {
 			seq[i] = sr.rep
+			sr.count--
 		}
 	} else if slip.ObjectEqual(sr.old, v) {
 		seq[i] = sr.rep
+		sr.count--
 	}
-	sr.count--
 	return sr.count <= 0
 }
 
@@ -238,13 +240,13 @@ func (sr *subRep) replaceBytes(seq []byte) slip.Object {
 		sr.count = len(seq)
 	}
 	if sr.rev {
-		for i := sr.end - 1; sr.start <= i; i-- {
+		for i := sr.end - 1; sr.start <= i && 0 < sr.count; i-- {
 			if sr.maybeByte(seq, i) {
 				break
 			}
 		}
 	} else {
-		for i := sr.start; i < sr.end; i++ {
+		for i := sr.start; i < sr.end && 0 < sr.count; i++ {
 			if sr.maybeByte(seq, i) {
 				break
 			}
@@ -261,10 +263,11 @@ func (sr *subRep) maybeByte(seq []byte, i int) bool {
 	if sr.tc != nil {
 		if sr.tc.Call(sr.s, slip.List{sr.old, v}, sr.depth) != nil {
 			seq[i] = byte(sr.rep.(slip.Octet))
+			sr.count--
 		}
 	} else if slip.ObjectEqual(sr.old, v) {
 		seq[i] = byte(sr.rep.(slip.Octet))
+		sr.count--
 	}
-	sr.count--
 	return sr.count <= 0
 }
